@@ -23,6 +23,7 @@ func C03(ctx *core.Ctx) {
 	ctx.Rule("C03.R4", "message sequence mirror between client writer/reader and processor reader", 7)
 	ctx.Rule("C03.R5", "dispatch key: processMap is indexed with the name returned by ReadMessageBegin of the same message", 1)
 	ctx.Rule("C03.R7", "frame accounting: the framed transport's remaining-frame counter decreases by the bytes actually read", 2)
+	ctx.Rule("C03.R9", "invocation handlers keep no state across invocations: a closure of type InvocationHandler neither writes through a captured slice/map/pointer nor returns captured storage (concurrent calls of one method each get their own arguments and results)", 1)
 	ctx.Rule("C03.R8", "message kinds and method name: Call uses CALL and the same method name for request and reply check; Oneway uses ONEWAY", 3)
 
 	// ---- R4 -------------------------------------------------------------------------------
@@ -175,6 +176,32 @@ func C03(ctx *core.Ctx) {
 			}
 		})
 		ctx.Check(ok && hdr != nil && beg != nil && ssax.Dominates(hdr, beg), "C03.R5", ssax.Name(proc)+" › dispatch on the message's own method name", fnPos(r, proc), "processMap[name of ReadMessageBegin], after ReadRequestHeader", "the processor function is chosen by something other than the method name of the message being read")
+		// unknown method: the rest of the request is consumed before the exception reply is written
+		var missFirst ssa.Instruction
+		ssax.Instrs(proc, func(in ssa.Instruction) {
+			lk, isL := in.(*ssa.Lookup)
+			if !isL || !lk.CommaOk || fieldNameOfValue(lk.X) != "processMap" {
+				return
+			}
+			for _, u := range *lk.Referrers() {
+				if e, isE := u.(*ssa.Extract); isE && e.Index == 1 {
+					for _, w := range *e.Referrers() {
+						if iff, isIf := w.(*ssa.If); isIf && len(iff.Block().Succs[1].Instrs) > 0 {
+							missFirst = iff.Block().Succs[1].Instrs[0]
+						}
+					}
+				}
+			}
+		})
+		if missFirst == nil {
+			ctx.Unresolved("C03.R5", ssax.Name(proc)+" › unknown-method branch", "miss edge of the processMap lookup not found")
+		} else {
+			oprot := proc.Params[2]
+			steps := []seqStep{{"Skip(args)", protoStep(iprot, "Skip")}, {"ReadMessageEnd", protoStep(iprot, "ReadMessageEnd")},
+				{"WriteResponseHeader", protoStep(oprot, "WriteResponseHeader")}, {"WriteMessageBegin", protoStep(oprot, "WriteMessageBegin")},
+				{"exception.Write", protoStep(oprot, "body.Write")}, {"WriteMessageEnd", protoStep(oprot, "WriteMessageEnd")}, {"Flush", protoStep(oprot, "Flush")}}
+			checkSequence(ctx, r, "C03.R5", ssax.Name(proc)+" › unknown method: request drained, then exception reply", proc, missFirst, steps, nilErrorReturn)
+		}
 		// the processor function gets the request's fctx and both protocols
 		for _, c := range ssax.Calls(proc) {
 			if c.Method != nil && c.Method.Name() == "Process" && ssax.TypeNamed(c.Common.Value.Type(), "", "FProcessorFunction") {
@@ -185,6 +212,63 @@ func C03(ctx *core.Ctx) {
 				}
 				ctx.Check(okArgs, "C03.R5", ssax.Name(proc)+" › processor function gets the request's context and protocols", r.IPos(c.Instr), "Process(fctx of ReadRequestHeader, iprot, oprot)", "the handler side is invoked with a different context or protocol than the request's")
 			}
+		}
+	}
+
+	// ---- R9 -------------------------------------------------------------------------------
+	if ih := r.Pkg.Type("InvocationHandler"); ih == nil {
+		ctx.Unresolved("C03.R9", "InvocationHandler", "type not found")
+	} else {
+		want := ih.Type().Underlying()
+		var rootFree func(v ssa.Value, depth int) *ssa.FreeVar
+		rootFree = func(v ssa.Value, depth int) *ssa.FreeVar {
+			if depth > 8 {
+				return nil
+			}
+			switch x := ssax.Strip(v).(type) {
+			case *ssa.FreeVar:
+				return x
+			case *ssa.IndexAddr:
+				return rootFree(x.X, depth+1)
+			case *ssa.FieldAddr:
+				return rootFree(x.X, depth+1)
+			case *ssa.UnOp:
+				if x.Op == token.MUL {
+					return rootFree(x.X, depth+1)
+				}
+			case *ssa.Slice:
+				return rootFree(x.X, depth+1)
+			}
+			return nil
+		}
+		for _, fn := range r.Fns {
+			if fn.Parent() == nil || !types.Identical(fn.Signature, want) {
+				continue
+			}
+			bad := ""
+			ssax.Instrs(fn, func(in ssa.Instruction) {
+				switch x := in.(type) {
+				case *ssa.Store:
+					// a store *to the cell of* a captured variable, or through captured storage
+					if fv := rootFree(x.Addr, 0); fv != nil {
+						bad = r.IPos(in) + ": write through captured " + fv.Name()
+					}
+				case *ssa.MapUpdate:
+					if fv := rootFree(x.Map, 0); fv != nil {
+						bad = r.IPos(in) + ": map update of captured " + fv.Name()
+					}
+				case *ssa.Return:
+					for _, rv := range x.Results {
+						if fv := rootFree(rv, 0); fv != nil {
+							if _, isSl := fv.Type().Underlying().(*types.Pointer).Elem().Underlying().(*types.Slice); isSl {
+								bad = r.IPos(in) + ": returns captured slice " + fv.Name()
+							}
+						}
+					}
+				}
+			})
+			ctx.Check(bad == "", "C03.R9", ssax.Name(fn)+" › no state shared between invocations", fnPos(r, fn), "writes only to storage allocated by this invocation",
+				"the handler closure is created once per method and invoked concurrently, but "+bad+": two overlapping invocations of one method share the storage, so a caller can receive the results (or arguments) of another call")
 		}
 	}
 
